@@ -1,5 +1,6 @@
 import DryocVerif.Model.Protected
 import DryocVerif.Proofs.ProtectedRel
+import DryocVerif.Proofs.ProtectedRelExtra
 import DryocVerif.Proofs.GenProtected
 /-
 C15 — the page-aligned allocator never hands back memory that still holds data: every release
@@ -9,6 +10,13 @@ bytes before it frees (`c.wipe = true`); it never looks at the growth policy of 
 (`growCap` is not unfolded anywhere), at the page size, or at who called `deallocate`
 (`Vec` reallocation, shrink + drop, `Protected::drop`, error and panic paths).
 The counter-model (`c.wipe = false`, the tree before the repair) shows the defect.
+
+`release_zeroed` alone would also hold of a model that never released anything.  The second half of
+this file therefore proves that the trace is COMPLETE: every operation that hands a block back logs
+exactly that block (`objDrop_releases`, `grow_releases_old`, `locked_resize_releases_old`,
+`locked_resize_panic_releases_new`, `clone_drop_releases`, `drop_token_releases`) and the final
+teardown logs exactly the blocks of the slots that were still live (`finish_releases_all`); and the
+zeroing write of `deallocate` goes to writable pages (`wipe_on_writable_pages`).
 -/
 namespace DryocVerif.Properties.C15
 open DryocVerif DryocVerif.Model.Protected DryocVerif.Proofs.Protected
@@ -66,6 +74,112 @@ example :
     (runState { cNoWipe with n := 20, wipe := true } (State.init fun _ => true)
       [⟨.new, 0⟩, ⟨.fill 0xa5, 0⟩, ⟨.resize 4, 0⟩, ⟨.drop, 0⟩]).m.rel = [(20, 0)] := by
   decide
+
+/-! ### completeness of the release trace -/
+
+/-- Dropping any object that owns a block (a bare container or a `Protected` region in ANY type
+state, locked or not, whatever its page rights) reaches `deallocate` exactly once, with the full
+capacity, and the block is zero when it is released. -/
+theorem objDrop_releases (c : Cfg) (hw : c.wipe = true) (m : Mach) (o : Obj) (h : 0 < o.v.cap) :
+    (objDrop c m o).rel = m.rel ++ [(o.v.cap, 0)] := by
+  rw [objDrop_rel c hw, relOf_pos h]
+
+/-- … and an object without a block (an empty `Vec`: `cap = 0`) releases nothing -/
+theorem objDrop_empty_silent (c : Cfg) (hw : c.wipe = true) (m : Mach) (o : Obj) (h : o.v.cap = 0) :
+    (objDrop c m o).rel = m.rel := by
+  rw [objDrop_rel c hw]; simp [relOf, h]
+
+/-- `Vec::resize` beyond the capacity reallocates: exactly the OLD block (old capacity) is released,
+zeroed; a resize within the capacity releases nothing. -/
+theorem grow_releases_old (c : Cfg) (hw : c.wipe = true) (m : Mach) (v : PVec) (n : Nat)
+    (hl : v.len ≤ v.cap) :
+    (v.cap < n → 0 < v.cap → (vecResize c m v n).1.rel = m.rel ++ [(v.cap, 0)]) ∧
+    (n ≤ v.cap → (vecResize c m v n).1.rel = m.rel) := by
+  rw [vecResize_rel c hw m v n hl]
+  refine ⟨fun h1 h2 => ?_, fun h1 => ?_⟩
+  · rw [if_neg (by omega), relOf_pos h2]
+  · rw [if_pos h1]; simp
+
+/-- resize of a `Locked` region is resize-by-copy (new block, lock, copy, drop the old region): when
+it succeeds exactly the old block is released, zeroed -/
+theorem locked_resize_releases_old (c : Cfg) (hw : c.wipe = true) (m : Mach) (v nv : PVec) (n : Nat)
+    (h : (lockedResize c m v n).2 = some nv) (hc : 0 < v.cap) :
+    (lockedResize c m v n).1.rel = m.rel ++ [(v.cap, 0)] := by
+  rw [lockedResize_rel c hw, h]; simp [relOf_pos hc]
+
+/-- … and when the new block cannot be locked (the `expect` panics) exactly the half-built NEW block
+is released, zeroed; the old region is untouched -/
+theorem locked_resize_panic_releases_new (c : Cfg) (hw : c.wipe = true) (m : Mach) (v : PVec) (n : Nat)
+    (h : (lockedResize c m v n).2 = none) :
+    0 < n ∧ (lockedResize c m v n).1.rel = m.rel ++ [(growCap 0 n, 0)] := by
+  have hn : n ≠ 0 := by
+    intro h0
+    subst h0
+    have hlen := vecResize_len c m PVec.empty 0
+    unfold lockedResize lockV dryocMlock at h
+    simp [hlen] at h
+  refine ⟨by omega, ?_⟩
+  rw [lockedResize_rel c hw, h, vecResize_empty_cap]
+  simp [hn, relOf_pos (growCap_ge 0 n).2]
+
+/-- the block of a clone has capacity `len`; dropping the clone releases exactly it -/
+theorem clone_drop_releases (c : Cfg) (hw : c.wipe = true) (m : Mach) (v : PVec) (st : St) (h : 0 < v.len) :
+    (objDrop c (vecClone c m v).1 ⟨st, (vecClone c m v).2⟩).rel = m.rel ++ [(v.len, 0)] := by
+  rw [objDrop_rel c hw, vecClone_rel]
+  simp only [vecClone_cap]
+  rw [relOf_pos h]
+
+/-- the `drop` token on a live slot logs exactly the slot's block -/
+theorem drop_token_releases (c : Cfg) (hw : c.wipe = true) (s : State) (i : Nat) (sl : Slot)
+    (hi : s.slots[i]? = some sl) (hg : sl.gone = false) :
+    (step c s ⟨.drop, i⟩).2.m.rel = if sl.o.v.cap = 0 then [] else [(sl.o.v.cap, 0)] :=
+  step_drop_rel c hw s hi hg
+
+/-- **the teardown forgets nothing**: after `finish` (the harness' `slots.clear()`) the release log
+is, in slot order, exactly one event `(cap, 0)` for every slot that was still live and owned a block
+— no block of a live slot is missing, nothing else is released, everything is zeroed. -/
+theorem finish_releases_all (c : Cfg) (hw : c.wipe = true) (s : State) :
+    (finish c s).m.rel =
+      (s.slots.filter fun sl => !sl.gone && decide (0 < sl.o.v.cap)).map fun sl => (sl.o.v.cap, 0) :=
+  finish_rel c hw s
+
+/-- non-vacuity witness (`finish_releases_all`, `objDrop_releases`, `grow_releases_old`): three
+regions of capacities 16, 16 and 40 (the second one grown from 16, which releases its old block at
+once), the first dropped early; the teardown releases the other two -/
+example :
+    let c : Cfg := { cNoWipe with n := 16, wipe := true }
+    let r := run c (State.init fun _ => true)
+      [⟨.new, 0⟩, ⟨.clone, 0⟩, ⟨.fill 0xa5, 1⟩, ⟨.resize 40, 1⟩, ⟨.newlocked, 0⟩, ⟨.new, 0⟩, ⟨.drop, 0⟩]
+    let s := runState c (State.init fun _ => true)
+      [⟨.new, 0⟩, ⟨.clone, 0⟩, ⟨.fill 0xa5, 1⟩, ⟨.resize 40, 1⟩, ⟨.newlocked, 0⟩, ⟨.new, 0⟩, ⟨.drop, 0⟩]
+    r.map (fun x => x.2.m.rel) = [[], [], [], [(16, 0)], [], [], [(16, 0)]] ∧
+    s.slots.map (fun sl => (sl.gone, sl.o.v.cap)) = [(true, 16), (false, 40), (false, 0), (false, 16)] ∧
+    (finish c s).m.rel = [(40, 0), (16, 0)] := by
+  decide
+
+/-- non-vacuity witness (`locked_resize_releases_old`, `locked_resize_panic_releases_new`): a locked
+8-byte region resized to 9 bytes, first granted then refused -/
+example :
+    let c : Cfg := { cNoWipe with wipe := true }
+    let s := runState c (State.init fun _ => true) [⟨.new, 0⟩, ⟨.lock, 0⟩]
+    let s' := runState c (State.init fun _ => true) [⟨.new, 0⟩, ⟨.lock, 0⟩, ⟨.failfrom 1, 0⟩]
+    (step c s ⟨.resize 9, 0⟩).1 = .ok ∧ (step c s ⟨.resize 9, 0⟩).2.m.rel = [(8, 0)] ∧
+    (step c s' ⟨.resize 9, 0⟩).1 = .panic ∧ (step c s' ⟨.resize 9, 0⟩).2.m.rel = [(growCap 0 9, 0)] := by
+  decide
+
+/-! ### the wipe cannot fault -/
+
+/-- `deallocate` first makes the whole region `[ptr, ptr+cap)` read-write, then wipes it, then
+restores the guards: the kernel after `deallocate` is the result of exactly these three `mprotect`
+calls in this order, and right after the first one every byte `ptr + off`, `off < cap`, lies on a
+`rw` page — whatever the rights were before (read-only, no-access) — so the zeroing write is to
+writable memory. -/
+theorem wipe_on_writable_pages (c : Cfg) (hP : 0 < c.P) (m : Mach) (v : PVec) :
+    (dealloc c m v).k =
+      mprotect c.P (mprotect c.P (mprotect c.P m.k (ptr c v) v.cap .rw) (ptr c v - c.P) c.P .rw)
+        (ptr c v - c.P + (c.P + pageRound c.P v.cap)) c.P .rw ∧
+    ∀ off, off < v.cap → (mprotect c.P m.k (ptr c v) v.cap .rw).perm ((ptr c v + off) / c.P) = .rw :=
+  ⟨dealloc_kernel c m v, fun _ hoff => dealloc_first_rw hP m.k v hoff⟩
 
 /-- tie to the source: `PageAlignedAllocator::deallocate` as translated wipes `layout.size()` bytes starting at the
 allocation's pointer, before the block is handed to `free` -/
